@@ -30,11 +30,17 @@ CHECKS = [
   "Model-based: generated interleavings of every writer of the shared index file (save_hard_state, SaveMember, AddNodeAddr with 5..200-char addresses so records shrink after growing, log catalogue via appends, snapshot catalogue via compaction pointer, snapshot install = SaveSnapshots + SaveMember + SaveLogs, last-applied header) with reopens; get_initial_state / get_membership_config / get_target_addr must equal the last acknowledged values after every op and after every reopen, and the observed term never decreases.",
   "Stop points are after a write barrier (acknowledged writes have reached the OS). RaftIndexManager acknowledges before the write is issued (DESIGN F14): that window is timing dependent and not asserted. Histories start with a term >= 1 save and members_after_consensus is only ever None, as every real caller does.",
   "property-based testing (proptest) with a last-acknowledged-value model (stateful, vec(op) + interpreter)"),
+ chk("C04", "E5 LD_PRELOAD journal + store-mode recovery", "fault_enumeration",
+  "Generated store-mode histories are executed by a child under an LD_PRELOAD journal of file mutations (open-create, write, pwrite, writev, ftruncate, rename, unlink, with per-descriptor offsets); for EVERY prefix of each journal the directory image is materialised and reopened with the real recovery code, and the clauses of the property are judged against what was submitted / durable before that prefix: recovery succeeds, log in order and contiguous above the newest pointer, all durable entries present, only submitted entries exposed, hard state / membership / addresses / last-applied equal to a written value, last_applied not past log + snapshot. Complete over crash prefixes per history (exhaustive per history), sampled over histories.",
+  "Crash model as stated by the property (process death, atomic ordered writes, OS survives); one operation in flight at a time; store mode mirrors the catalogue messages of compaction, the full-node compaction/install journals are not enumerated here.",
+  "fault injection by crash-point enumeration over proptest-generated histories (LD_PRELOAD mutation journal, every prefix recovered and judged)"),
 ]
 
 ENGINES = [
  {"name": "E1", "path": "harness/src", "serves_properties": ["C20", "C02", "C03", "C05"],
   "kind_free_text": "in-process proptest model-based / round-trip checks linked against /repo as a library (fresh actix System per phase for the file-store actor chain)"},
+ {"name": "E5", "path": "interpose/journal.c + harness/src/c04.rs", "serves_properties": ["C04"],
+  "kind_free_text": "LD_PRELOAD journal of file mutations in a recorder child; parent materialises every journal prefix and runs the real recovery code on it"},
 ]
 
 def main():
@@ -47,7 +53,7 @@ def main():
         commits = []
     hook_commits = [c.split()[0] for c in commits if c.split(' ', 1)[1].startswith('verif-hook')]
     m = {"version": 1,
-         "setup_cmd": "cd /verif/harness && CARGO_NET_OFFLINE=true cargo build --offline",
+         "setup_cmd": "cd /verif/harness && CARGO_NET_OFFLINE=true cargo build --offline && clang -shared -fPIC -O2 -o /verif/target/journal.so /verif/interpose/journal.c -ldl -lpthread",
          "hooks": {"guard": "nacos_group_r_nacos_verif",
                    "enable": "no hooks in use: checks reach the code through pub API, real sockets and real files of the unmodified build",
                    "baseline_off_cmd": "cd /repo && (cargo nextest run --workspace --no-fail-fast --test-threads 8 --offline || cargo test --workspace --no-fail-fast --offline)",
